@@ -27,13 +27,18 @@ _m(
     "first scan frequency) and q_highpass (1 in 3), parallax_flip_phase, soft_edges, the batch sizes {1, n-1, n, largest "
     "non-divisor of n} + up to 3 more (all of 1..n when n <= 9) + one size > n (1 in 3), butterworth_order (default or "
     "2/4/8/24), matched_filter_norm_epsilon (default or 0.03/0.5), a call history of 0..3 earlier reconstruct calls on the "
-    "re-used instance, each being the main call with ONE argument changed (two, 1 in 4): butterworth_order (3x weight; a "
+    "re-used instance, each being either (1 in 3) a NEUTRAL call -- any kernel spelling with every optional stage at its identity "
+    "setting: all aberration coefficients exactly 0, parallax_flip_phase=False, up-sampling None/1, the full construction "
+    "mask (bf_mask=None or given explicitly), with q_lowpass and/or q_highpass set in 3 of 4 -- or the main call with ONE "
+    "argument changed (two, 1 in 4): the mask (sub-mask -> full),  butterworth_order (3x weight; a "
     "cut-off is then forced on the main call), q_lowpass / q_highpass (other value or None), upsampling factor, kernel, "
     "aberrations (halved, or every coefficient exactly 0.0), rotation angle (+-0.05..3 rad, or exactly 0.0), batch size "
     "only, and matched_filter_norm_epsilon (mf) / parallax_flip_phase (parallax) when the main call uses that kernel; a "
     "second stack seed with coefficients a, b in [-2, 2] \\ {0} "
     "and a batch size for the linearity runs, and a random bipartition of the reconstruction mask.  (analytic) parallax "
-    "spelling, parallax_flip_phase=False, no upsampling/filters, random batch size.  A meta case is NON-TRIVIAL when the "
+    "spelling, parallax_flip_phase=False, no upsampling/filters, random batch size, and (1 in 2) one earlier call on the same "
+    "instance whose result is not judged: a neutral call as above (half) or any kernel with drawn flip / up-sampling / "
+    "filters / mask / halved or zeroed aberrations.  A meta case is NON-TRIVIAL when the "
     "reconstruction mask has >= 4 pixels, at least one tested batch size b with 1 < b < n does not divide n (>= 2 batches of "
     "unequal size) and the un-batched result is not identically zero; cases whose aperture weight is < 0.5 pixel or whose "
     "filtered result is < 5 % of the un-filtered one are recorded as trivial and not judged.  An analytic case is NON-TRIVIAL "
@@ -54,8 +59,15 @@ _m(
         "or detector grid differs (relations 1, 3, 5) therefore allow, in addition to the tolerance, the measured change of "
         "the same un-batched reconstruction under a 3e-6 relative change of every hyper-parameter (~50 float32 ulp; angles "
         "3e-6 rad) (for corrected_bf: that change + sqrt(n) x the per-image change); comparisons between runs with identical "
-        "batch composition (linearity, call history) get no such allowance -- their kernel factors are bit-identical.  Largest "
-        "error as a fraction of the allowance on the clean tree: 0.15 (second soak of 3 600 + 7 200 cases with the final "
+        "batch composition (linearity, call history) get no such allowance -- their kernel factors are bit-identical.  The allowance is 5 x the larger of the responses to +3e-6 and -3e-6 "
+        "(the probe is one step per sign and only an estimate: a thorough-tier case had responses 3 % and 66 % in the two "
+        "directions), and a case whose response exceeds 0.5 % of the comparison scale is not judged at all by relations 1, 3, "
+        "5 (class ill_conditioned, ~4 % of ssb/obf/mf cases); such cases still go through linearity, the call history and the "
+        "'reuse' comparison (used instance vs fresh instance, both un-batched: identical kernel factors, no allowance), which "
+        "every case gets.  Largest error / allowance on the clean tree with these rules (thorough at VQ_SCALE=0.3, seeds 1 and 2, "
+        "49 928 evaluations: pass; instrumented replica of 6 of those workers): 0.049 (parallax batch invariance, no allowance "
+        "involved), <= 0.033 elsewhere; history and reuse comparisons bit-identical.  Before these rules: "
+        "0.15 (second soak of 3 600 + 7 200 cases with the final "
         "tolerances: <= 0.10 for every relation and kernel); about 5 % of the ssb/obf/mf cases have a sensitivity above 1 % of "
         "max |result| and are thereby effectively not judged by relations 1, 3, 5 (counted as ill_conditioned)",
         "aperture weights W = sum_k |probe(k)|^2 are recomputed by the harness from the public evaluate_probe / "
@@ -91,8 +103,8 @@ _m(
     "re-used instance with a call history, linearity in the stack, weighted recombination of complementary sub-masks, sub-mask "
     "vs fresh instance) "
     "and a float64 reference model for the parallax kernel (autograd shifts + DFT translation)",
-    text="Budget per worker: quick 200 meta + 350 analytic cases (2 workers), thorough 1200 meta + 4000 analytic cases (16 "
-    "workers: 19 200 + 64 000).  Generated-input search.  Each configuration is reconstructed 10-25 times through the public entry point and the "
+    text="Budget per worker: quick 200 meta + 350 analytic cases (2 workers, ~65 s on an idle machine), thorough 800 meta + 3000 "
+    "analytic cases (16 workers: 12 800 + 48 000; ~5 min of CPU per worker).  Generated-input search.  Each configuration is reconstructed 10-25 times through the public entry point and the "
     "results are compared with each other according to the relations the property names; parallax reconstructions without "
     "sign flipping are compared with an independent float64 model.  Exploration only: no absence claim.",
     note="The relations do not pin the content of the ssb/obf/mf/icom kernels or of up-sampled reconstructions (a wrong but "
